@@ -58,6 +58,14 @@ def features() -> List[dict]:
         F("fstring", loop=['mon.write(f"v={a}:{1.5}:{a + 1}|")']),
         F("strops", setup=['s0 = "x"'], loop=["s0 = s0 + str(a)", "mon.write(s0)", 's1 = "lit" + str(a) + "!"', "mon.write(s1)"]),
         F("fn_dev", defs=["def blink_it(n):", "    led0.on()", "    sleep(n)", "    led0.off()", "    return n + 1"], setup=["led0 = Led(13)"], loop=["x1 = blink_it(2)", "mon.write(x1)"]),
+        # a caller defined ABOVE a callee that is used with several, mutually inconvertible signatures
+        F("fn_forward_overloads", defs=["def fwd_caller(n):", '    fwd_show("text")', "    fwd_show(n)", "    fwd_show(n * 0.5)", "def fwd_show(v):", "    mon.write(v)"], setup=["fwd_caller(a)"], loop=["fwd_caller(2)"]),
+        F("fn_forward_overloads_ret", defs=["def fwd_pick(n):", '    return fwd_id("t") + str(fwd_id(n))', "def fwd_id(v):", "    return v"], setup=["mon.write(fwd_pick(a))"]),
+        # one name lifted out of blocks in different scopes with different types
+        F("prom_name_reuse", defs=["def lab(n):", "    if n > 2:", '        pv = "high"', "    else:", '        pv = "low"', "    return pv"], setup=["if a == 0:", "    lim9 = 10", "else:", "    lim9 = 20", "mon.write(lab(a))"],
+          loop=["for k9 in range(3):", "    pv = k9 * a", "mon.write(pv)", "mon.write(lim9)"]),
+        F("prom_name_reuse_try", defs=["def lab2(n):", "    try:", "        pw = 1.5", "    except:", "        pw = 2.5", "    return pw"], setup=["if a == 0:", "    lim8 = 1", "else:", "    lim8 = 2", "mon.write(lab2(a))"],
+          loop=["kw = 0", "while kw < 2:", "    kw += 1", '    pw = "s" + str(kw)', "mon.write(pw)"]),
         F("fn_later", defs=["def first(v):", "    return second(v) + 1", "def second(v):", "    return v * 2"], loop=["mon.write(first(a))"]),
         F("fn_ultra", defs=["def dist():", "    return us0.measure_distance()"], setup=["us0 = Ultrasonic(26, 27)"], loop=["mon.write(dist())"]),
         F("fn_str", defs=["def tag(v):", '    return "t" + str(v)'], loop=["mon.write(tag(a))"]),
@@ -304,6 +312,18 @@ def gen_operators(tier: str) -> Iterator[dict]:
                     continue  # (a float assigned to an int name is KF-C02-first-assignment-wins' subject)
                 body = form.replace("{E}", f"{l} {op} {r}").split("\n")
                 yield {"id": f"O:{lk}:{op}:{rk}:{fi}", "space": "N", "src": common.script(head + body, prologue=PRO), "runs": [{"passes": 0, "ar": {"A0": [4]}}], "python_decides": True}
+        if op in ("<", "=="):
+            # chains over strings: a literal first, in the middle, last; a call in the middle (single-evaluation form)
+            texts = {"str": "txt", "strlit": '"m"', "strcall": "str(a)", "fstr": 'f"{a}"'}
+            for other in ("!=", op):
+                for (k1, t1), (k2, t2), (k3, t3) in itertools.product(texts.items(), repeat=3):
+                    body = [f"v = {t1} {op} {t2} {other} {t3}", "mon.write(v)"]
+                    yield {"id": f"O:chain:{k1}:{op}:{k2}:{other}:{k3}", "space": "N", "src": common.script(head + body, prologue=PRO), "runs": [{"passes": 0, "ar": {"A0": [4]}}], "python_decides": True}
+        if op == "+":
+            for ci, cond_expr in enumerate(('("a" if a > 2 else "b")', '("a" if a > 2 else txt)', '(txt if a > 2 else "b")', '("a" if a > 2 else str(a))', '(f"{a}" if a > 2 else "b")')):
+                for fi2, form2 in enumerate(("v = {C} + \"c\"", "v = \"c\" + {C}", "v = {C} + txt", "v = {C} + {C}", "mon.write({C} + \"!\")", "v = ({C} + \"c\") + \"d\"")):
+                    body = form2.replace("{C}", cond_expr).split("\n") + (["mon.write(v)"] if form2.startswith("v =") else [])
+                    yield {"id": f"O:ifexp:{ci}:{fi2}", "space": "N", "src": common.script(head + body, prologue=PRO), "runs": [{"passes": 0, "ar": {"A0": [4]}}], "python_decides": True}
         for (lk, l) in OPERANDS.items():
             if op in ("+", "-", "*", "/", "//", "%", "**", "&", "|", "^", "<<", ">>"):
                 for rk in ("intlit", "int", "float", "str"):
